@@ -1669,6 +1669,10 @@ func (rn *runner) runBehaviour(b behaviour) {
 					if _, err := stores.cur.hs.LoadCommittedHeader(context.Background(), h); err != nil {
 						rn.emitViol(b.ID, i, st.Op, viol{"C10", "DurableChainCoversPosition", st.Op, "header-missing",
 							fmt.Sprintf("after a crash at store write %d of this step the mirror store records committing height %d, but the committed header store has no header at height %d", st.CrashAt, chh, h)})
+						// the same durable state seen as C04's "heights advance one at a time without gaps": the node will resume
+						// above a height it never recorded
+						rn.emitViol(b.ID, i, st.Op, viol{"C04", "NoGaps", st.Op, "durable-position-ahead-of-chain",
+							fmt.Sprintf("a crash at store write %d of this step leaves the committing position at height %d while the committed chain on disk ends below it (no header at height %d): the height is skipped for good", st.CrashAt, chh, h)})
 						break
 					}
 				}
